@@ -40,7 +40,7 @@ def make_spec(rng, **kw):
 
 
 NAME_POOL = ["a", "A10", "A2", "sample", "sample_1", "sample_10", "Zoe", "NA12878", "NA12878-2", "child", "mother", "father",
-             "x.1", "S1", "S2", "s1", "0", "17", "proband", "HG002", "HG003", "HG004", "B-b", "B_b", "zz", "Aa", "aA"]
+             "x.1", "S1", "S2", "s1", "00", "17", "proband", "HG002", "HG003", "HG004", "B-b", "B_b", "zz", "Aa", "aA"]
 
 
 def draw_variation(rng, spec, fixed=None):
@@ -80,6 +80,58 @@ def draw_variation(rng, spec, fixed=None):
     return var
 
 
+def classify_crash(spec, res, default_sig):
+    """(signature, description) of a failed `whatshap phase` run; specific classes first."""
+    se = res["stderr"]
+    var = spec.get("var") or {}
+    if var.get("merge_reads") and ("not present in pedigree" in se or "duplicate read name" in se):
+        return ("phase:merge-reads-drops-sample-id",
+                "--merge-reads builds the merged reads without sample_id/source_id (merge.py: Read(f'read{n}')), so the solver "
+                "refuses every sample whose numeric id is not 0 (RuntimeError 'Individual with ID 0 not present in pedigree') and "
+                "pedigree runs collide on the renumbered names ('ReadSet::add: duplicate read name')")
+    if "GrayCodes" in se or res["rc"] < 0 or res["rc"] == 124:
+        return ("phase:solver-abort-over-cap", "the solver aborted / was killed / timed out (GrayCodes assertion, signal or "
+                "timeout: more reads span a column than the exponential table supports)")
+    return (default_sig, "whatshap phase failed")
+
+
+def tally_variation(ctx, spec, prefix):
+    """input-distribution counters for the freely drawn dimensions (one call per CLI run)"""
+    var = spec.get("var") or {}
+    t = lambda key, k=1: ctx.tally(f"{prefix}.{key}", k)
+    t("runs")
+    t(f"family={spec.get('family')}")
+    roles, names = var.get("roles", []), var.get("names", [])
+    if roles != names:
+        t("random_sample_names")
+        if set(names) & {"father", "mother", "child"} and any(n in ("father", "mother", "child") and n != r for r, n in zip(roles, names)):
+            t("role_names_swapped")
+        if len(names) > 1 and sorted(names) != [n for _, n in sorted(zip(roles, names))]:
+            t("names_sort_against_roles")
+    if var.get("column_order") != sorted(var.get("column_order", [])):
+        t("vcf_columns_permuted")
+    if "extra1" in roles:
+        t("extra_unrelated_sample_next_to_family")
+    if any(n > 1 for n in var.get("rg_per_sample", [])):
+        t("several_read_groups_per_sample")
+    t(f"rg_style={var.get('rg_style')}")
+    t(f"nbam={var.get('nbam')}")
+    for flag in ("merge_reads", "only_snvs", "no_reference", "sample_subset", "chrom_subset", "ignore_rg", "prephased",
+                 "default_k", "include_homozygous"):
+        if var.get(flag):
+            t(flag)
+    if spec.get("distrust"):
+        t("distrust_genotypes")
+    if spec.get("phased_input"):
+        t("phased_vcf_as_phase_input")
+    t(f"nchrom={spec['nchrom']}")
+    nfam = len(base_roles(spec))
+    if spec["trio"]:
+        t("k_not_divisible_by_family" if spec["k"] % nfam else "k_divisible_by_family")
+        if nfam > spec["k"]:
+            t("family_larger_than_k")
+
+
 def base_roles(spec):
     fam = spec.get("family")
     if fam == "unrelated":
@@ -108,7 +160,8 @@ def make_stacked_spec(rng, k, counts, family="trio", many=0, nstack=None):
     many: members whose entry in counts is None get `many` ordinary reads spread over the chromosome instead."""
     spec = make_spec(rng, trio=(family != "single"), k=k, nvars=rng.randint(5, 8), depth_reads=many, paired_fraction=0.0,
                      het_fraction=1.0, tag="PS", genetic=rng.random() < 0.5, phased_input=False, nchrom=1,
-                     low_cov_gaps=False, min_gap=25, len_range=[60, 200], family=family)
+                     low_cov_gaps=False, min_gap=25, len_range=[60, 200], family=family,
+                     var={"merge_reads": False})       # merging would change the number of reads per member
     spec["kinds"] = ["snv"]
     spec["stacked"] = {"counts": list(counts), "nstack": nstack or rng.choice([2, 3])}
     return spec
@@ -253,7 +306,15 @@ def write_bams(sc, reads, wd, spec, rng):
     tid = {c: i for i, c in enumerate(sc.chroms)}
     nbam = var.get("nbam", 1)
     names = sorted({r["name"] for r in reads})
+    if len(names) < nbam:
+        nbam = 1
     file_of = {n: rng.randrange(nbam) for n in names}
+    for b in range(nbam):                       # no empty BAM (whatshap refuses a file without reads)
+        if b not in file_of.values():
+            file_of[names[b]] = b
+    if len(set(file_of.values())) < nbam:
+        nbam = 1
+        file_of = {n: 0 for n in names}
     rg_of = {n: rng.randrange(8) for n in names}
     paths = []
     for b in range(nbam):
